@@ -49,3 +49,17 @@ func VerifPoolRun(cfg string, iterations, workers, flushInterval, cancelAfter in
 	}
 	return VerifPoolOutcome{Added: wp.currentCount, Result: wp.result, Err: wp.err, Done: true}
 }
+
+// VerifSampleLogs produces the log of a sample run the way the /sample handler does (configuration as
+// JSON text, gzip-compressed lines).
+func VerifSampleLogs(cfgJSON string, seed uint64) ([]byte, error) {
+	simCfg, err := parseCfg([]byte(cfgJSON))
+	if err != nil {
+		return nil, err
+	}
+	gcsl, err := parseLogic(simCfg)
+	if err != nil {
+		return nil, err
+	}
+	return generateLogs(simCfg, gcsl, seed)
+}
